@@ -131,6 +131,15 @@ def run(prop, tier, seed, replay=None):
             mres = [("model-error", model_problem)] * len(cases)
         ires = [_impl(mod, c) for c in cases]
 
+    if tier == "thorough" and proof["build_rc"] == 0 and not replay:
+        try:
+            from . import vmcheck
+            vinfo, vprobs = vmcheck.run(prop, seed=seed)
+            proof["vmcheck"] = vinfo
+            proof["problems"].extend(vprobs)
+        except Exception as e:       # the cross-check itself must not decide anything by crashing
+            proof["vmcheck"] = {"crashed": f"{type(e).__name__}: {e}"[:300]}
+
     extra_fail = []
     extra = getattr(mod, "extra_checks", None)
     extra_info = {}
